@@ -170,6 +170,8 @@ def random_program(rng, idx=0, max_series=6, allow3=True):
             for _ in range(nl):
                 c = rng.choice(["default", "diagonal", "offdiagonal", "offdiagonal", "diagonal"])
                 e = g.expr(refs, rng.randint(0, 3))
+                if e == "zero":  # a bare name is not an expression line of the grammar
+                    e = "-zero"
                 if c == "default":
                     vals.append(e)
                 else:
